@@ -44,7 +44,7 @@ enum align_type {
 struct stream;
 
 /* Initialize a stream of size bytes */
-struct stream *init_stream(uint16_t size);
+struct stream *init_stream(size_t size);
 
 /* Copy a stream s and return the copy */
 struct stream *copy_stream(struct stream *s);
@@ -53,7 +53,7 @@ struct stream *copy_stream(struct stream *s);
 void free_stream(struct stream *s);
 
 /* Write len bytes from data to stream s */
-void write_stream(struct stream *s, void *data, uint16_t len);
+void write_stream(struct stream *s, void *data, size_t len);
 
 /* Get the start position pointer of stream s */
 uint8_t *get_stream_start(struct stream *s);
@@ -65,12 +65,12 @@ size_t get_stream_size(struct stream *s);
 uint8_t read_stream(struct stream *s);
 
 /* Read len bytes from stream s and write them to buff */
-void read_n_bytes_stream(uint8_t *buff, struct stream *s, uint16_t len);
+void read_n_bytes_stream(uint8_t *buff, struct stream *s, size_t len);
 
 /* Read len bytes from stream s, starting from position start and write
  * the result to buff.
  */
-void read_stream_at(uint8_t *buff, struct stream *s, uint16_t start, uint16_t len);
+void read_stream_at(uint8_t *buff, struct stream *s, size_t start, size_t len);
 
 /* Calculate the reqired size for a stream, so that all information from data
  * fit into it. type controls, if it is for validation or signing purposes.
